@@ -1,5 +1,7 @@
 package checks
 
+import "strings"
+
 func init() {
 	Register(&Check{
 		ID: "C11", Title: "pure, deterministic, re-entrant", Race: true,
@@ -13,6 +15,13 @@ func init() {
 
 					c := Case{ID: "C11 " + mode + " " + b.ID[4:], Pkg: "", Fn: "ZZC11", Args: []string{mode, b.Args[0], b.Args[1], b.Args[2], b.Args[3]}, Tag: mode}
 					cases = append(cases, c)
+				}
+				// metadata read from the store: the answers a store hands out are left alone, and two
+				// calls over one bundled static store write to none of its maps
+				if strings.Contains(b.Args[0], "meta(") && b.Args[2] != "" {
+					for _, mode := range []string{"answers", "shared"} {
+						cases = append(cases, Case{ID: "C11 " + mode + " " + b.ID[4:], Pkg: "", Fn: "ZZC11", Args: []string{mode, b.Args[0], b.Args[1], b.Args[2], b.Args[3]}, Tag: mode})
+					}
 				}
 			}
 			extra := [][]string{
